@@ -44,6 +44,9 @@ META = {
 STRS = ["plain", "with,comma", 'with"quote', "two words", "x", "end,\"both\"", "multi\nline"]
 
 
+GC_EACH_RUN = True  # see sim/worker.run_tape
+
+
 def tier_cfg(tier):
     return {"maxrows": 16 if tier == "quick" else 40}
 
